@@ -182,7 +182,183 @@ def sampled_ops(ctx):
     return mirror, levels, wild
 
 
+# ------------------------------------------------------------------------------------------------ A + C (Gourdon)
+
+AC_LOOP = {"AC": "AC_loop", "AC_plain": "AC_plain", "ac_a_p": "ac_a_p", "ac_a_ld": "ac_a_ld", "ac_c2_p": "ac_c2_p",
+           "ac_c2_ld": "ac_c2_ld", "ac_c1": "ac_c1"}
+
+
+def _xstar(x, y):
+    y = max(y, 1)
+    xs = max(gen.iroot(4, x), -(-x // (y * y)))
+    return max(min(min(xs, y), gen.isqrt(x // y)), 1)
+
+
+def _ac_x(op):
+    p = op.split()
+    return int(p[3]) if p[0] in ("ac_a_ld", "ac_c2_ld") else int(p[2])
+
+
+def _ac_nontrivial(op, res):
+    return op if _ac_x(op) > 100 and res != "0" else None
+
+
+def _ac_classify(op, res):
+    p = op.split()
+    x = _ac_x(op)
+    size = "x<=4e3" if x <= 4000 else "x<=1e8" if x <= 10 ** 8 else "x>1e8"
+    return "%s/%s/%s/%s" % (p[0], p[1], size, "zero" if res == "0" else "nonzero")
+
+
+def _gourdon_all(x):
+    """every (y, z) with x13 < y <= z < sqrt(x)"""
+    x13, sq = gen.iroot(3, x), gen.isqrt(x)
+    return [(y, z) for y in range(x13 + 1, sq) for z in range(y, sq)]
+
+
+def _seg_ops(rng, w, x, y, z, k, segs, out, every_b=False):
+    """per-(segment, b) kernel ops for the levels AC_OpenMP can call them with"""
+    xs, x13 = _xstar(x, y), gen.iroot(3, x)
+    la, ha = _pi(xs) + 1, _pi(x13)
+    lc, hc = max(k, _pi(gen.isqrt(z))) + 1, _pi(xs)
+    for (low, high) in segs:
+        for (lo, hi, names) in ((la, ha, ("ac_a_p", "ac_a_ld")), (lc, hc, ("ac_c2_p", "ac_c2_ld"))):
+            if lo > hi:
+                continue
+            bs = range(lo, hi + 1) if every_b else {lo, hi, rng.randint(lo, hi)}
+            for b in bs:
+                out.append("%s %s %d %d %d %d %d %d" % (names[0], w, x, y, z, b, low, high))
+                out.append("%s %s %s %d %d %d %d %d %d" % (names[1], w, rng.choice(("k64", "k128")), x, y, z, b, low, high))
+
+
+def _c1_ops(rng, w, x, y, z, k, out, every_b=False):
+    ps = gen.primes_upto(max(y, 2))
+    l1, h1 = max(k, _pi(gen.iroot(3, x // z))) + 1, _pi(gen.isqrt(z))
+    if l1 > h1:
+        return
+    for b in (range(l1, h1 + 1) if every_b else {l1, h1, rng.randint(l1, h1)}):
+        p = ps[b - 1]
+        xp = x // p
+        maxm = min(xp // p, z)
+        minm = min(max(xp // (p * p), z // p), maxm)
+        out.append("ac_c1 %s %d %d %d %d -1 %d 1 %d %d" % (w, x, y, z, b, b, minm, maxm))
+        a = _pi(y)
+        if a > b:
+            i = rng.randint(b + 1, a)
+            out.append("ac_c1 %s %d %d %d %d %d %d %d %d %d" % (w, x, y, z, b, rng.choice((1, -1)), i, ps[i - 1], minm,
+                                                               rng.choice((maxm, max(maxm - rng.randint(0, 5), 0)))))
+
+
+def ac_small_ops(ctx):
+    rng = ctx.rng
+    whole, kern = [], []
+    for x in range(30, (1200 if ctx.quick else 4000) + 1):
+        kk = gen.get_k(x)
+        for (y, z) in _gourdon_all(x):
+            for k in sorted({0, kk, max(kk - 1, 0)}):
+                whole.append("AC 64 %d %d %d %d 1" % (x, y, z, k))
+            whole.append("AC_plain %s %d %d %d %d 2" % ("128" if (x + y) % 2 else "64", x, y, z, kk))
+    for x in range(30, (420 if ctx.quick else 1200) + 1):
+        sq = gen.isqrt(x)
+        for (y, z) in _gourdon_all(x):
+            segs = [(0, h) for h in range(1, sq + 2)]
+            _seg_ops(rng, rng.choice(("64", "128")), x, y, z, rng.choice((0, gen.get_k(x))), segs, kern, every_b=True)
+            _c1_ops(rng, "64", x, y, z, 0, kern, every_b=True)
+    return whole, kern
+
+
+def _leaf_segments(rng, x, y, z, k, n):
+    """segments whose `high` lies ON a leaf value x / (p q), +-1, and segments starting at the multiple of 240 below it"""
+    xs, x13, sq = _xstar(x, y), gen.iroot(3, x), gen.isqrt(x)
+    ps = gen.primes_upto(max(gen.isqrt(x // max(xs, 1)), y, 2))
+    segs = [(0, sq), (0, max(sq - 1, 1)), (0, sq + 1)]
+    for _ in range(n):
+        la, ha = _pi(xs) + 1, _pi(x13)
+        lc, hc = max(k, _pi(gen.isqrt(z))) + 1, _pi(xs)
+        lo, hi = rng.choice(((la, ha), (lc, hc)))
+        if lo > hi or hi > len(ps):
+            continue
+        p = ps[rng.randint(lo, hi) - 1]
+        j0 = bisect.bisect_right(ps, p)
+        j1 = bisect.bisect_right(ps, min(gen.isqrt(x // p), y if (lo, hi) == (lc, hc) else 10 ** 18))
+        if j0 >= j1:
+            continue
+        q = ps[rng.randint(j0, j1 - 1)]
+        v = x // (p * q)
+        low = 240 * (v // 240)
+        for d in (-1, 0, 1, 2):
+            if v + d > low:
+                segs.append((low, v + d))
+        if low >= 240:
+            segs.append((low - 240 * rng.randint(1, max(low // 240, 1)), low))
+            segs.append((low - 240, low + 1))
+        segs.append((low, low + 240 * rng.randint(1, 30)))
+    return segs
+
+
+def ac_sampled_ops(ctx):
+    rng = ctx.rng
+    whole, kern, segvar = [], [], []
+    for x in gen.structured_x(rng, 4000, 10 ** 9, 120 if ctx.quick else 1200):
+        y, z = gen.gourdon_yz(rng, x)
+        kk = gen.get_k(x)
+        k = rng.choice((kk, kk, rng.randint(0, kk)))
+        w = rng.choice(("64", "128"))
+        t = rng.choice((1, 2, 5, 16))
+        if x <= 2 * 10 ** 8:
+            whole.append("AC %s %d %d %d %d %d" % (w, x, y, z, k, t))
+            whole.append("AC_plain %s %d %d %d %d %d" % (w, x, y, z, k, t))
+            segvar.append(("AC %s %d %d %d %d %d" % (w, x, y, z, k, t), rng.choice((1, 240, 1000, 7680, gen.isqrt(x)))))
+        _seg_ops(rng, w, x, y, z, k, _leaf_segments(rng, x, y, z, k, 3), kern)
+        _c1_ops(rng, w, x, y, z, k, kern)
+    # real multi-segment runs (sqrt(x) > 7680) and kernels on far segments
+    for x in gen.structured_x(rng, 6 * 10 ** 7, 3 * 10 ** 10, 10 if ctx.quick else 80):
+        y, z = gen.gourdon_yz(rng, x, 0.3)
+        k = gen.get_k(x)
+        w = rng.choice(("64", "128"))
+        if x <= 3 * 10 ** 9:
+            whole.append("AC %s %d %d %d %d %d" % (w, x, y, z, k, rng.choice((1, 3, 16))))
+            whole.append("AC_plain %s %d %d %d %d %d" % (w, x, y, z, k, rng.choice((1, 4))))
+        _seg_ops(rng, w, x, y, z, k, _leaf_segments(rng, x, y, z, k, 2), kern)
+        _c1_ops(rng, w, x, y, z, k, kern)
+    # beyond 2^63: kernels only (the mirror's table has to reach max(z, sqrt(x / x_star)) ~ x^(3/8))
+    for x in ((2 ** 63 + rng.randint(0, 10 ** 9),) if ctx.quick else (2 ** 63 + rng.randint(0, 10 ** 9), 10 ** 19 + 3, 2 ** 65 + 1)):
+        x13 = gen.iroot(3, x)
+        y = x13 + rng.randint(1, 1000)
+        z = y + rng.randint(0, 1000)
+        kern2 = []
+        _seg_ops(rng, "128", x, y, z, 8, _leaf_segments(rng, x, y, z, 8, 2)[3:], kern2)
+        kern += kern2[:8]
+    return whole, kern, segvar
+
+
+def ac_streams(ctx):
+    whole_s, kern_s = ac_small_ops(ctx)
+    whole, kern, segvar = ac_sampled_ops(ctx)
+    lib_small = [o for o in whole_s if o.startswith("AC ")]
+    sts = [
+        # the library's AC and AC.cpp against the control-flow mirror (PcModel/EasyAC.lean)
+        Stream("easyac_small_mirror", whole_s, oracle=False, model_ops=_rename(AC_LOOP), nontrivial=_ac_nontrivial,
+               classify=_ac_classify, timeout=1500),
+        # every admissible (y, z, k), not only the default curve, against the defining sums NT.A + NT.C (proved = Spec.A + Spec.C)
+        Stream("easyac_small_definitions", lib_small, oracle=True, nontrivial=_ac_nontrivial, classify=_ac_classify, timeout=1500),
+        Stream("easyac_kernels", kern_s + kern, oracle=False, model_ops=_rename(AC_LOOP), nontrivial=_ac_nontrivial,
+               classify=_ac_classify, timeout=1800),
+        Stream("easyac_sampled_mirror", whole, oracle=False, model_ops=_rename(AC_LOOP), nontrivial=_ac_nontrivial,
+               classify=_ac_classify, timeout=1800),
+        # the same real run against the mirror under ANOTHER segmentation (any chain of segments gives the same value)
+        Stream("easyac_segmentations", [o for o, _ in segvar], oracle=False,
+               model_ops=lambda ops, impl: ["AC_segs " + o.split(" ", 1)[1].rsplit(" ", 1)[0] + " %d" % s for o, s in segvar],
+               nontrivial=_ac_nontrivial, classify=_ac_classify, timeout=1800),
+    ]
+    return sts
+
+
 def streams(ctx):
+    return s2easy_streams(ctx) + ac_streams(ctx)
+
+
+def s2easy_streams(ctx):
     lib, plain = small_ops(ctx)
     mirror, levels, wild = sampled_ops(ctx)
     sts = [
